@@ -324,6 +324,7 @@ def shrink_validation(scenario, protected=(), simple=("X", "Kann")):
             candidate = clone(scenario)
             target, target_key = expressions_of(candidate["requests"][0]["op"]["ahb"])[index]
             target[target_key] = replacement
+            target.pop("expect_fc", None)  # (what C15 expects of the format constraint the expression no longer has)
             yield candidate
             break
     world = scenario["world"]
